@@ -29,7 +29,7 @@ runpy.run_path("main.py", run_name="__main__")
 
 def gen_case(seed):
     r = random.Random(f"{seed}:c09")
-    kind = r.choice(["greedy", "greedy", "greedy", "plan", "clockwork"])
+    kind = r.choice(["greedy", "greedy", "greedy", "plan", "clockwork", "plan_random"])
     if kind == "greedy":
         w = W.gen_world(seed, "greedy", {"p_batch_loader": 0, "p_conditionals": 0.5, "p_variance": 0.5,
                                          "release_kinds": ["fixed", "poisson", "gamma", "closed_loop", "poisson",
@@ -38,6 +38,14 @@ def gen_case(seed):
         w = W.gen_world(seed, "plan", dict(W.PLAN_OPTS, p_solver_chaos=0.0,
                                            release_kinds=["fixed", "poisson", "gamma"]))
         w["policy"]["runtime"] = 0
+    elif kind == "plan_random":
+        # planners that look ahead across unresolved conditionals with the RANDOM branch prediction policy (the
+        # only one the TetriSched policies have): every frontier query draws from the seeded generator
+        w = W.gen_world(seed, "plan", dict(W.PLAN_OPTS, p_solver_chaos=0.0, p_conditionals=1.0, max_nodes=5,
+                                           release_kinds=["fixed", "poisson", "gamma"], lookaheads=[2, 5, 20],
+                                           policies=["TetriSchedCPLEX", "TetriSchedGurobi", "ILP"]))
+        w["policy"]["runtime"] = 0
+        w["policy"]["branch_policy"] = "random"
     else:
         w = W.gen_world(seed, "clockwork", {})
         w["preload"] = []
